@@ -252,6 +252,9 @@ pub fn c11w(ctx: &Ctx, begin: &mut dyn FnMut(J)) -> Outcome {
         let res = if let Some(inp) = &bw { wr::write_bw(sink.clone(), inp, &o, Some(&ctx.scratch), &[]) } else { wr::write_bb(sink.clone(), bb.as_ref().unwrap(), &o, None, Some(&ctx.scratch), &[]) };
         hooks::set_policy(0, 0, false);
         let tr = hooks::take_trace();
+        // heartbeat: a class is up to 30 writes, some of them slowed down on purpose by the delay policy; the
+        // runner's watchdog is a quiescence bound on protocol lines, so say that this write returned
+        crate::proto::emit(&J::obj().set("ev", "tick".into()).set("case", ctx.case.into()).set("run", i.into()));
         match &res {
             CallResult::Ok => {}
             CallResult::Err(e) if e.starts_with("INDEX_") || e.contains("File is not sorted") => {
